@@ -68,6 +68,9 @@ func genC07(t *rapid.T) c7Case {
 			{c.Base + ".legacy.go", valid("stale_legacy"), 3},
 			{"testdata/" + c.Base + ".g.go", "package testdata\n", 4},
 			{"sub_not_pkg/" + c.Base + ".g.txt", "x\n", 5},
+			// directories whose NAME looks like an output file: user data and a nested package that is not selected
+			{c.Base + ".assets/data.txt", "user data\n", 4},
+			{c.Base + ".sub/x.go", "package sub\n\ntype X struct{ A int }\n", 5},
 		} {
 			if rapid.IntRange(0, cand.w).Draw(t, "pre") == 0 {
 				p.Other = append(p.Other, modspec.File{Name: cand.name, Data: cand.data})
